@@ -115,7 +115,32 @@ pub fn multiplier_nonneg() -> BoxedStrategy<f64> {
 /// configuration for a kind with periods from the mixture
 pub fn cfg_for(kind: Kind, cap: usize, mult: BoxedStrategy<f64>) -> BoxedStrategy<Cfg> {
     let np = kind.n_periods();
-    let ps = vec(period(cap), np..=np);
+    // several periods: mostly independent draws, but also the relations a special case can hide behind —
+    // all equal, second = first, second a multiple of the first, last = 1, first = 1
+    let ps = (vec(period(cap), np..=np), 0usize..12)
+        .prop_map(move |(mut p, rel)| {
+            if p.len() >= 2 {
+                match rel {
+                    0 => {
+                        let a = p[0];
+                        for q in p.iter_mut() {
+                            *q = a;
+                        }
+                    }
+                    1 => p[1] = p[0],
+                    2 => p[1] = if p[0] * 2 <= cap.max(2) { p[0] * 2 } else { p[0] },
+                    3 => {
+                        let l = p.len() - 1;
+                        p[l] = 1;
+                    }
+                    4 => p[0] = 1,
+                    5 => p[1] = if p[0] * 3 <= cap.max(3) { p[0] * 3 } else { p[0] },
+                    _ => {}
+                }
+            }
+            p
+        })
+        .boxed();
     if kind.has_mult() {
         (ps, mult).prop_map(move |(p, m)| Cfg { kind, p, m: X(m) }).boxed()
     } else {
@@ -454,7 +479,21 @@ pub fn bar_stream(grid: bool, min_len: usize, max_len: usize) -> BoxedStrategy<B
             let regime = if regime == 8 || regime == 9 { regime - 8 } else { regime };
             let vals = expand(dom, regime, base, aux, &noise);
             let g = if grid { Some(grid_step(base)) } else { None };
-            BarStream { regime, bars: bars_from(&vals, &shape, g) }
+            let mut bars = bars_from(&vals, &shape, g);
+            // structured but ordinary data, chosen per stream: every close at the high / at the low, every open
+            // equal to the close, constant volume
+            match (aux * 64.0) as usize % 16 {
+                0 => bars.iter_mut().for_each(|b| b.c = b.h),
+                1 => bars.iter_mut().for_each(|b| b.c = b.l),
+                2 => bars.iter_mut().for_each(|b| b.o = b.c),
+                3 => bars.iter_mut().for_each(|b| b.v = 100.0),
+                4 => bars.iter_mut().for_each(|b| {
+                    b.c = b.h;
+                    b.v = 100.0
+                }),
+                _ => {}
+            }
+            BarStream { regime, bars }
         })
         .boxed()
 }
